@@ -14,15 +14,17 @@ EXTENDS TraceLib, LedgerTable, Integers, FiniteSets
 
 CONSTANTS Mode, KnownC
 
-VARIABLES l, body, final, lock, dlock, total, topo, validated, last, prev, val
+VARIABLES l, body, final, lock, dlock, total, ainfo, topo, validated, last, prev, val
 
 L == INSTANCE Ledger WITH Tx <- TxU, TxDef <- TxDefU, Ord <- OrdU, Asset <- AssetU, Cap <- CapU,
-                          Genesis <- GenesisU, None <- "None", Known <- KnownC
+                          Genesis <- GenesisU, Info0 <- InfoU, None <- "None", Known <- KnownC
 
-KnownAll == {"C16-1"}
+KnownAll == {"C16-1", "C16-2"}
+Known1 == {"C16-1"}
+Known2 == {"C16-2"}
 KnownNone == {}
 
-lvars == <<body, final, lock, dlock, total, topo, validated, last>>
+lvars == <<body, final, lock, dlock, total, ainfo, topo, validated, last>>
 
 Ev == Trace[l]
 IsEvent(n) == l <= TraceLen /\ Ev.ev = n /\ l' = l + 1
@@ -42,7 +44,7 @@ Sum(S, f(_)) == LET RECURSIVE s(_)
 
 ObsEqualsModel(o) ==
     /\ OBody(o) = body' /\ OFinal(o) = final'
-    /\ \A a \in AssetU : o.total[a] = total'[a]
+    /\ \A a \in AssetU : o.total[a] = total'[a] /\ o.ainfo[a] = ainfo'[a]
     /\ \A t \in DOMAIN dlock' : o.dlock[t] = dlock'[t]
     /\ OTopo(o) = topo'
     /\ \A x \in L!AllOuts :
@@ -85,10 +87,16 @@ ODepositOverflow(p, b) ==
       \E t \in b : TxDefU[t].kind = "deposit" /\ TxDefU[t].asset = a /\ t \notin OFinal(p)
           /\ p.total[a] + TxDefU[t].amt >=
                CapU[a] - Sum({u \in b \ {t} : TxDefU[u].kind = "deposit" /\ TxDefU[u].asset = a /\ u \notin OFinal(p)}, L!DepAmt)
+ORecordConflict(p, b) ==
+    \E t \in b : TxDefU[t].kind = "deposit" /\ t \notin OFinal(p)
+        /\ \/ p.ainfo[TxDefU[t].asset] \notin {"none", TxDefU[t].info}
+           \/ \E u \in b \ {t} : TxDefU[u].kind = "deposit" /\ u \notin OFinal(p)
+                                 /\ TxDefU[u].asset = TxDefU[t].asset /\ TxDefU[u].info # TxDefU[t].info
 OC16(e, p) ==
     (e.ev = "Apply" /\ BSet(e) \in val) =>
         \/ e.res = "applied"
         \/ ("C16-1" \in KnownC /\ ODepositOverflow(p, BSet(e)))
+        \/ ("C16-2" \in KnownC /\ ORecordConflict(p, BSet(e)))
 
 (* ------------------------------------------------------------------ *)
 Init ==
@@ -99,7 +107,7 @@ Reset ==
     /\ IsEvent("Reset")
     /\ body' = {} /\ final' = {} /\ lock' = [o \in L!AllOuts |-> "None"]
     /\ dlock' = [t \in {u \in TxU : TxDefU[u].kind = "deposit"} |-> "None"]
-    /\ total' = GenesisU /\ topo' = <<>> /\ validated' = {} /\ last' = [op |-> "Init"]
+    /\ total' = GenesisU /\ ainfo' = InfoU /\ topo' = <<>> /\ validated' = {} /\ last' = [op |-> "Init"]
     /\ prev' = Ev.obs /\ val' = {}
     /\ (Mode = "full" => ObsEqualsModel(Ev.obs))
     /\ (Mode \in {"full", "C17"} => OC17(Ev.obs))
